@@ -1,9 +1,18 @@
 #!/bin/bash
-# usage: confirm_seed.sh <worktree> <seed-dir>   -- confirms: patch applies, suite passes with it, demo fails with it, demo passes without it
+# usage: confirm_seed.sh <worktree> <seed-dir>   -- brings the scratch worktree to /repo's current HEAD, (re)applies the
+# patch (3-way, rewriting patch.diff if it had to be rebased) and confirms: suite passes with it, demo fails with it, demo passes without it
 wt=$1; d=$2
 cd "$wt" || exit 2
 git checkout -q -- . ; rm -f tests/demo_seeded.rs
-git apply --check "$d/patch.diff" || { echo "PATCH DOES NOT APPLY"; exit 1; }
+git checkout -q --detach main 2>/dev/null
+if ! git apply --check "$d/patch.diff" 2>/dev/null; then
+  if git apply --3way "$d/patch.diff" >/dev/null 2>&1 && [ -z "$(git diff --name-only --diff-filter=U)" ]; then
+    git diff HEAD -- src > "$d/patch.diff"; git reset -q --hard
+    echo "NOTE: patch rebased onto current HEAD"
+  else
+    git reset -q --hard; echo "PATCH DOES NOT APPLY to current HEAD"; exit 1
+  fi
+fi
 git apply "$d/patch.diff"
 suite=$(CARGO_NET_OFFLINE=true cargo test --workspace --no-fail-fast --offline 2>&1 | grep -E "^test result" | awk '{p+=$4; f+=$6} END {print p" passed "f" failed"}')
 cp "$d/demo.rs" tests/demo_seeded.rs
@@ -11,4 +20,4 @@ with=$(CARGO_NET_OFFLINE=true cargo test --offline --test demo_seeded 2>&1 | gre
 git checkout -q -- .
 without=$(CARGO_NET_OFFLINE=true cargo test --offline --test demo_seeded 2>&1 | grep -E "^test result" | head -1)
 rm -f tests/demo_seeded.rs
-echo "suite-with-patch: $suite | demo-with-patch: $with | demo-without-patch: $without"
+echo "at $(git rev-parse --short HEAD): suite-with-patch: $suite | demo-with-patch: $with | demo-without-patch: $without"
